@@ -66,120 +66,6 @@ theorem bboxOf_bounds (pts : List (α × α)) (bb : α × α × α × α) (h : b
     · exact ⟨a1, a2, a3, a4⟩
     · exact hq p hp
 
-/-- what `mkIndex` returns -/
-theorem mkIndex_ok (fl : α → Int) (bb : α × α × α × α) (res : Option (α × α)) (m : α) (ix : Index α)
-    (h : mkIndex fl bb res m = .ok ix) :
-    let xmin := bb.1 - m * (bb.2.1 - bb.1)
-    let xmax := bb.2.1 + m * (bb.2.1 - bb.1)
-    let ymin := bb.2.2.1 - m * (bb.2.2.2 - bb.2.2.1)
-    let ymax := bb.2.2.2 + m * (bb.2.2.2 - bb.2.2.1)
-    let ax := xmax - xmin
-    let ay := ymax - ymin
-    ix.xmin = xmin ∧ ix.xmax = xmax ∧ ix.ymin = ymin ∧ ix.ymax = ymax ∧ ix.csize ≠ 0 ∧ ix.lsize ≠ 0 ∧
-    ix.dX = ax / ((ix.csize : Int) : α) ∧ ix.dY = ay / ((ix.lsize : Int) : α) ∧
-    ix.grid = List.replicate ix.csize.toNat (List.replicate ix.lsize.toNat []) ∧ ix.inv = [] ∧
-    (res = none → max ax ay / ((100 : Int) : α) ≠ 0 ∧
-      ix.csize = max 1 (pyInt fl (ax / (max ax ay / ((100 : Int) : α)))) ∧
-      ix.lsize = max 1 (pyInt fl (ay / (max ax ay / ((100 : Int) : α))))) ∧
-    (∀ r, res = some r → r.1 ≠ 0 ∧ r.2 ≠ 0 ∧ ix.csize = pyInt fl (ax / r.1) ∧ ix.lsize = pyInt fl (ay / r.2)) := by
-  intro xmin xmax ymin ymax ax ay
-  unfold mkIndex at h
-  simp only at h
-  cases res with
-  | none =>
-    simp only at h
-    split_ifs at h with hz
-    · have hz' := hz
-      simp only [Bool.not_eq_true] at hz'
-      simp only at h
-      split_ifs at h with c1 c2
-      simp only [Except.ok.injEq] at h
-      subst h
-      simp only [beq_iff_eq] at c1 c2
-      refine ⟨rfl, rfl, rfl, rfl, c1, c2, rfl, rfl, rfl, rfl, ?_, ?_⟩
-      · intro _
-        refine ⟨?_, ?_, ?_⟩
-        · have := (isZero_false_iff _).mp hz'
-          rw [pyMax_eq] at this
-          simpa [xmin, xmax, ymin, ymax, ax, ay] using this
-        · simp [pyMax_eq, xmin, xmax, ymin, ymax, ax, ay]
-        · simp [pyMax_eq, xmin, xmax, ymin, ymax, ax, ay]
-      · intro r hr; cases hr
-  | some r =>
-    simp only at h
-    by_cases hz1 : isZero r.1 = true
-    · simp [hz1] at h
-    have hz1' : isZero r.1 = false := by simpa using hz1
-    by_cases hz2 : isZero r.2 = true
-    · simp [hz1', hz2] at h
-    have hz2' : isZero r.2 = false := by simpa using hz2
-    simp only [hz1', hz2', Bool.false_eq_true, ↓reduceIte] at h
-    split_ifs at h with c1 c2
-    simp only [Except.ok.injEq] at h
-    subst h
-    simp only [beq_iff_eq] at c1 c2
-    refine ⟨rfl, rfl, rfl, rfl, c1, c2, rfl, rfl, rfl, rfl, ?_, ?_⟩
-    · intro hr; cases hr
-    · intro r' hr; cases hr
-      exact ⟨(isZero_false_iff _).mp hz1', (isZero_false_iff _).mp hz2', rfl, rfl⟩
-
-theorem mkIndex_wf (fl : α → Int) (bb : α × α × α × α) (res : Option (α × α)) (m : α) (ix : Index α)
-    (h : mkIndex fl bb res m = .ok ix) : WF ix := by
-  obtain ⟨_, _, _, _, _, _, _, _, hg, hi, _⟩ := mkIndex_ok fl bb res m ix h
-  refine ⟨?_, ?_, ?_⟩
-  · intro i j d hm; rw [hi] at hm; simp at hm
-  · rw [hg]; simp
-  · intro row hr; rw [hg] at hr
-    rw [(List.mem_replicate.mp hr).2]; simp
-
-theorem IsFloor.zero {fl : α → Int} (hf : IsFloor fl) : fl 0 = 0 :=
-  hf.eq_of (by simp) (by simp)
-
-/-- one axis of the constructor: with a non-negative extent `a`, a positive cell size `r` and a non-zero
-count `int(a / r)`, the count and the resulting cell size `a / count` are positive -/
-theorem axis_pos {fl : α → Int} (hf : IsFloor fl) (a r : α) (ha : 0 ≤ a) (hr : 0 < r)
-    (hn : pyInt fl (a / r) ≠ 0) : 0 < pyInt fl (a / r) ∧ 0 < a / ((pyInt fl (a / r) : Int) : α) := by
-  have hq : 0 ≤ a / r := div_nonneg ha (le_of_lt hr)
-  have e : pyInt fl (a / r) = fl (a / r) := by
-    unfold pyInt; rw [if_neg (not_lt.mpr hq)]
-  rw [e] at hn ⊢
-  have h0 : 0 ≤ fl (a / r) := by
-    have := hf.mono hq
-    rwa [hf.zero] at this
-  have hpos : 0 < fl (a / r) := lt_of_le_of_ne h0 (Ne.symm hn)
-  refine ⟨hpos, ?_⟩
-  have hc : (0 : α) < ((fl (a / r) : Int) : α) := by exact_mod_cast hpos
-  have h1 : (1 : α) ≤ ((fl (a / r) : Int) : α) := by exact_mod_cast (by omega : (1 : Int) ≤ fl (a / r))
-  have h2 : (1 : α) ≤ a / r := le_trans h1 (hf _).1
-  have h3 : r ≤ a := by
-    rw [le_div_iff₀ hr] at h2; linarith
-  exact div_pos (lt_of_lt_of_le hr h3) hc
-
-/-- positivity of the grid dimensions, for a non-degenerate constructor call: with the default resolution both
-are at least 1 (fix 9a44198), with an explicit positive cell size a non-zero count is positive -/
-theorem mkIndex_pos {fl : α → Int} (hf : IsFloor fl) (bb : α × α × α × α) (res : Option (α × α)) (m : α) (ix : Index α)
-    (h : mkIndex fl bb res m = .ok ix) (hm : 0 ≤ m) (hbx : bb.1 ≤ bb.2.1) (hby : bb.2.2.1 ≤ bb.2.2.2)
-    (hres : ∀ r, res = some r → 0 < r.1 ∧ 0 < r.2) :
-    0 < ix.csize ∧ 0 < ix.lsize := by
-  obtain ⟨_, _, _, _, c1, c2, _, _, _, _, hnone, hsome⟩ := mkIndex_ok fl bb res m ix h
-  have hax : 0 ≤ (bb.2.1 + m * (bb.2.1 - bb.1)) - (bb.1 - m * (bb.2.1 - bb.1)) := by
-    have := mul_nonneg hm (sub_nonneg.mpr hbx); linarith
-  have hay : 0 ≤ (bb.2.2.2 + m * (bb.2.2.2 - bb.2.2.1)) - (bb.2.2.1 - m * (bb.2.2.2 - bb.2.2.1)) := by
-    have := mul_nonneg hm (sub_nonneg.mpr hby); linarith
-  cases res with
-  | none =>
-    obtain ⟨_, ecs, els⟩ := hnone rfl
-    rw [ecs, els]
-    exact ⟨lt_of_lt_of_le Int.one_pos (le_max_left _ _), lt_of_lt_of_le Int.one_pos (le_max_left _ _)⟩
-  | some r =>
-    obtain ⟨_, _, ecs, els⟩ := hsome r rfl
-    obtain ⟨hr1, hr2⟩ := hres r rfl
-    rw [ecs] at c1
-    rw [els] at c2
-    obtain ⟨p1, _⟩ := axis_pos hf _ r.1 hax hr1 c1
-    obtain ⟨q1, _⟩ := axis_pos hf _ r.2 hay hr2 c2
-    exact ⟨by rw [ecs]; exact p1, by rw [els]; exact q1⟩
-
 omit [IsStrictOrderedRing α] in
 theorem isZero_true_iff (x : α) : isZero x = true ↔ x = 0 := by
   constructor
@@ -192,54 +78,121 @@ theorem isZero_true_iff (x : α) : isZero x = true ↔ x = 0 := by
     | true => rfl
     | false => exact absurd h ((isZero_false_iff x).mp hz)
 
-/-- the default resolution after fix 9a44198: for `margin ≥ 0` and a bounding box that is not a single point,
-`__init__` (up to the registration loop) does not raise, the grid has at least one column and one row, and a cell
-side is positive on every axis along which the bounding box has a positive length. (Before the fix an extent
-more than 100 times wider than tall, or the converse, raised ZeroDivisionError.) -/
-theorem mkIndex_default (fl : α → Int) (bb : α × α × α × α) (m : α) (hm : 0 ≤ m)
-    (hbx : bb.1 ≤ bb.2.1) (hby : bb.2.2.1 ≤ bb.2.2.2) (hne : bb.1 < bb.2.1 ∨ bb.2.2.1 < bb.2.2.2) :
-    ∃ ix, mkIndex fl bb none m = .ok ix ∧ 1 ≤ ix.csize ∧ 1 ≤ ix.lsize ∧
-      (bb.1 < bb.2.1 → 0 < ix.dX) ∧ (bb.2.2.1 < bb.2.2.2 → 0 < ix.dY) := by
-  have hax : 0 ≤ (bb.2.1 + m * (bb.2.1 - bb.1)) - (bb.1 - m * (bb.2.1 - bb.1)) := by
-    have := mul_nonneg hm (sub_nonneg.mpr hbx); linarith
-  have hay : 0 ≤ (bb.2.2.2 + m * (bb.2.2.2 - bb.2.2.1)) - (bb.2.2.1 - m * (bb.2.2.2 - bb.2.2.1)) := by
-    have := mul_nonneg hm (sub_nonneg.mpr hby); linarith
-  have hax' : bb.1 < bb.2.1 → 0 < (bb.2.1 + m * (bb.2.1 - bb.1)) - (bb.1 - m * (bb.2.1 - bb.1)) := by
-    intro h; have := mul_nonneg hm (sub_nonneg.mpr hbx); linarith
-  have hay' : bb.2.2.1 < bb.2.2.2 → 0 < (bb.2.2.2 + m * (bb.2.2.2 - bb.2.2.1)) - (bb.2.2.1 - m * (bb.2.2.2 - bb.2.2.1)) := by
-    intro h; have := mul_nonneg hm (sub_nonneg.mpr hby); linarith
-  have hmax : 0 < max ((bb.2.1 + m * (bb.2.1 - bb.1)) - (bb.1 - m * (bb.2.1 - bb.1)))
-      ((bb.2.2.2 + m * (bb.2.2.2 - bb.2.2.1)) - (bb.2.2.1 - m * (bb.2.2.2 - bb.2.2.1))) := by
-    rcases hne with h | h
-    · exact lt_of_lt_of_le (hax' h) (le_max_left _ _)
-    · exact lt_of_lt_of_le (hay' h) (le_max_right _ _)
-  cases h : mkIndex fl bb none m with
+/-- what `mkIndex` returns -/
+theorem mkIndex_ok (fl : α → Int) (bb : α × α × α × α) (res : Option (α × α)) (m : α) (ix : Index α)
+    (h : mkIndex fl bb res m = .ok ix) :
+    let xmin := bb.1 - m * (bb.2.1 - bb.1)
+    let xmax := bb.2.1 + m * (bb.2.1 - bb.1)
+    let ymin := bb.2.2.1 - m * (bb.2.2.2 - bb.2.2.1)
+    let ymax := bb.2.2.2 + m * (bb.2.2.2 - bb.2.2.1)
+    let ax := xmax - xmin
+    let ay := ymax - ymin
+    let r := reqSide ax ay res
+    ix.xmin = xmin ∧ ix.xmax = xmax ∧ ix.ymin = ymin ∧ ix.ymax = ymax ∧ r.1 ≠ 0 ∧ r.2 ≠ 0 ∧
+    ix.csize = max 1 (pyInt fl (ax / r.1)) ∧ ix.lsize = max 1 (pyInt fl (ay / r.2)) ∧
+    ix.dX = (if 0 < ax then ax / ((ix.csize : Int) : α) else r.1) ∧
+    ix.dY = (if 0 < ay then ay / ((ix.lsize : Int) : α) else r.2) ∧
+    ix.grid = List.replicate ix.csize.toNat (List.replicate ix.lsize.toNat []) ∧ ix.inv = [] := by
+  intro xmin xmax ymin ymax ax ay r
+  unfold mkIndex at h
+  simp only at h
+  by_cases hz1 : isZero r.1 = true
+  · simp [r, ax, ay, xmin, xmax, ymin, ymax] at hz1
+    simp [hz1] at h
+  have hz1' : isZero r.1 = false := by simpa using hz1
+  by_cases hz2 : isZero r.2 = true
+  · simp [r, ax, ay, xmin, xmax, ymin, ymax] at hz1' hz2
+    simp [hz1', hz2] at h
+  have hz2' : isZero r.2 = false := by simpa using hz2
+  have k1 := hz1'
+  have k2 := hz2'
+  simp only [r, ax, ay, xmin, xmax, ymin, ymax] at k1 k2
+  simp only [k1, k2, Bool.false_eq_true, ↓reduceIte, Except.ok.injEq] at h
+  subst h
+  exact ⟨rfl, rfl, rfl, rfl, (isZero_false_iff _).mp hz1', (isZero_false_iff _).mp hz2', rfl, rfl, rfl, rfl, rfl, rfl⟩
+
+theorem mkIndex_wf (fl : α → Int) (bb : α × α × α × α) (res : Option (α × α)) (m : α) (ix : Index α)
+    (h : mkIndex fl bb res m = .ok ix) : WF ix := by
+  obtain ⟨_, _, _, _, _, _, _, _, _, _, hg, hi⟩ := mkIndex_ok fl bb res m ix h
+  refine ⟨?_, ?_, ?_⟩
+  · intro i j d hm; rw [hi] at hm; simp at hm
+  · rw [hg]; simp
+  · intro row hr; rw [hg] at hr
+    rw [(List.mem_replicate.mp hr).2]; simp
+
+theorem IsFloor.zero {fl : α → Int} (hf : IsFloor fl) : fl 0 = 0 :=
+  hf.eq_of (by simp) (by simp)
+
+/-- the cell size the constructor works with is positive: the explicit one by hypothesis, the default one because
+it is `max(ax, ay) / 100` when that is positive and `1` otherwise -/
+theorem reqSide_pos (ax ay : α) (res : Option (α × α)) (hres : ∀ r, res = some r → 0 < r.1 ∧ 0 < r.2) :
+    0 < (reqSide ax ay res).1 ∧ 0 < (reqSide ax ay res).2 := by
+  cases res with
+  | some r => exact hres r rfl
+  | none =>
+    have h100 : (0 : α) < ((100 : Int) : α) := by norm_num
+    have : 0 < (if 0 < pyMax ax ay then pyMax ax ay / ((100 : Int) : α) else ((1 : Int) : α)) := by
+      split_ifs with h
+      · exact div_pos h h100
+      · norm_num
+    exact ⟨this, this⟩
+
+/-- one axis of the constructor, extent `a`, cell size `r > 0`, `n = max(1, int(a / r))` cells of side
+`a / n` (or `r` when `a = 0`): the side is positive, the cells tile the axis exactly when it has a positive length,
+and a zero-length axis has one cell -/
+theorem axis_spec {fl : α → Int} (hf : IsFloor fl) (a r : α) (hr : 0 < r) :
+    let n := max 1 (pyInt fl (a / r))
+    let side := if 0 < a then a / ((n : Int) : α) else r
+    0 < side ∧ (0 < a → side * ((n : Int) : α) = a) ∧ (a = 0 → n = 1) := by
+  intro n side
+  have hn1 : 1 ≤ n := le_max_left _ _
+  have hn : (0 : α) < ((n : Int) : α) := by exact_mod_cast (by omega : 0 < n)
+  refine ⟨?_, ?_, ?_⟩
+  · simp only [side]
+    split_ifs with h
+    · exact div_pos h hn
+    · exact hr
+  · intro h
+    simp only [side, if_pos h]
+    exact div_mul_cancel₀ _ (ne_of_gt hn)
+  · intro h
+    simp only [n, h, zero_div]
+    have : pyInt fl (0 : α) = 0 := by
+      unfold pyInt; rw [if_neg (lt_irrefl _), hf.zero]
+    rw [this]; rfl
+
+/-- the constructor up to the registration loop never raises when the cell size is the default one or positive
+(any bounding box — a single point, a flat one, one shorter than the cell size included): the grid has at least one
+column and one row, both cell sides are positive, the cells tile every axis of positive length exactly and an axis
+of zero length has one column / row. -/
+theorem mkIndex_builds {fl : α → Int} (hf : IsFloor fl) (bb : α × α × α × α) (res : Option (α × α)) (m : α)
+    (hres : ∀ r, res = some r → 0 < r.1 ∧ 0 < r.2) :
+    ∃ ix, mkIndex fl bb res m = .ok ix ∧ 1 ≤ ix.csize ∧ 1 ≤ ix.lsize ∧ 0 < ix.dX ∧ 0 < ix.dY ∧
+      (ix.xmin < ix.xmax → ix.dX * ((ix.csize : Int) : α) = ix.xmax - ix.xmin) ∧
+      (ix.ymin < ix.ymax → ix.dY * ((ix.lsize : Int) : α) = ix.ymax - ix.ymin) ∧
+      (ix.xmin = ix.xmax → ix.csize = 1) ∧ (ix.ymin = ix.ymax → ix.lsize = 1) := by
+  obtain ⟨hr1, hr2⟩ := reqSide_pos ((bb.2.1 + m * (bb.2.1 - bb.1)) - (bb.1 - m * (bb.2.1 - bb.1)))
+    ((bb.2.2.2 + m * (bb.2.2.2 - bb.2.2.1)) - (bb.2.2.1 - m * (bb.2.2.2 - bb.2.2.1))) res hres
+  cases h : mkIndex fl bb res m with
   | error e =>
     exfalso
     unfold mkIndex at h
     simp only at h
-    split_ifs at h with hz
-    · rw [isZero_true_iff, pyMax_eq] at hz
-      have h100 : (((100 : Int) : α)) ≠ 0 := by norm_num
-      rcases div_eq_zero_iff.mp hz with h0 | h0
-      · exact absurd h0 (ne_of_gt hmax)
-      · exact h100 h0
-    · simp only at h
-      split_ifs at h with c1 c2
-      · simp only [beq_iff_eq] at c1; omega
-      · simp only [beq_iff_eq] at c2; omega
+    rw [(isZero_false_iff _).mpr (ne_of_gt hr1), (isZero_false_iff _).mpr (ne_of_gt hr2)] at h
+    simp at h
   | ok ix =>
-    obtain ⟨_, _, _, _, _, _, e7, e8, _, _, hnone, _⟩ := mkIndex_ok fl bb none m ix h
-    obtain ⟨_, ecs, els⟩ := hnone rfl
-    have h1 : 1 ≤ ix.csize := by rw [ecs]; exact le_max_left _ _
-    have h2 : 1 ≤ ix.lsize := by rw [els]; exact le_max_left _ _
-    refine ⟨ix, rfl, h1, h2, ?_, ?_⟩
-    · intro hx
-      rw [e7]
-      exact div_pos (hax' hx) (by exact_mod_cast (by omega : 0 < ix.csize))
-    · intro hy
-      rw [e8]
-      exact div_pos (hay' hy) (by exact_mod_cast (by omega : 0 < ix.lsize))
+    obtain ⟨e1, e2, e3, e4, _, _, ecs, els, edx, edy, _, _⟩ := mkIndex_ok fl bb res m ix h
+    obtain ⟨px, tx, ox⟩ := axis_spec hf _ _ hr1
+    obtain ⟨py, ty, oy⟩ := axis_spec hf _ _ hr2
+    rw [← ecs, ← edx] at px tx
+    rw [← ecs] at ox
+    rw [← els, ← edy] at py ty
+    rw [← els] at oy
+    refine ⟨ix, rfl, by rw [ecs]; exact le_max_left _ _, by rw [els]; exact le_max_left _ _, px, py, ?_, ?_, ?_, ?_⟩
+    · intro hlt; rw [e1, e2] at hlt ⊢; exact tx (by linarith)
+    · intro hlt; rw [e3, e4] at hlt ⊢; exact ty (by linarith)
+    · intro heq; rw [e1, e2] at heq; exact ox (by rw [heq]; ring)
+    · intro heq; rw [e3, e4] at heq; exact oy (by rw [heq]; ring)
 
 /-- with `margin ≥ 0` every point of the bounding box is inside the extent, so `__getCell` answers -/
 theorem getCell_of_bbox (fl : α → Int) (bb : α × α × α × α) (res : Option (α × α)) (m : α) (ix : Index α)
